@@ -108,10 +108,22 @@ class UnpicklableBoom(Exception):
     """Raised with an unpicklable attribute attached after construction (see TFn.__call__)."""
 
 
+class _Refuses:
+    """Attribute whose pickling fails with an exception type other than PicklingError/TypeError/AttributeError."""
+
+    def __init__(self, kind):
+        self.kind = kind
+
+    def __reduce__(self):
+        raise {"VE": ValueError, "RE": RuntimeError, "NI": NotImplementedError}[self.kind]("cannot pickle this resource (%s)" % self.kind)
+
+
 from .graphs_exc2 import Boom as Boom2  # noqa: E402  (a different class with the same __name__)
 
 EXC = {"ValueError": ValueError, "KeyError": KeyError, "Boom": Boom, "BaseBoom": BaseBoom,
-       "UnpicklableBoom": UnpicklableBoom, "ZeroDivisionError": ZeroDivisionError, "Boom2": Boom2}
+       "UnpicklableBoom": UnpicklableBoom, "ZeroDivisionError": ZeroDivisionError, "Boom2": Boom2,
+       # the same exception class, made unpicklable through an attribute whose pickling fails with another error type
+       "UnpicklableBoomVE": UnpicklableBoom, "UnpicklableBoomRE": UnpicklableBoom, "UnpicklableBoomNI": UnpicklableBoom}
 
 
 class TFn:
@@ -152,6 +164,10 @@ class TFn:
             if self.fail == "UnpicklableBoom":
                 e = UnpicklableBoom(msg)
                 e.handle = threading.Lock()  # makes pickling the exception object fail
+                raise e
+            if self.fail.startswith("UnpicklableBoom"):
+                e = UnpicklableBoom(msg)
+                e.resource = _Refuses(self.fail[-2:])
                 raise e
             raise EXC[self.fail](msg)
         out = FUNCS[self.fname](*a, **kw)
